@@ -2,7 +2,7 @@
 # Runs every registered quick (or $1 = thorough) check in sequence; prints the summary line of each.
 cd "$(dirname "$0")/.."
 tier=${1:-quick}
-for p in C01 C02 C03 C04 C05 C06 C07 C08 C09 C10 C11 C12 C13 C14 C15 C17 C18 C19; do
+for p in C01 C02 C03 C04 C05 C06 C07 C08 C09 C10 C11 C12 C13 C14 C15 C16 C17 C18 C19; do
   out=$(./check $p --tier $tier 2>&1); rc=$?
   echo "$p exit=$rc $(echo "$out" | grep -c '^VIOLATION') violations, $(echo "$out" | grep -c '^INCONCLUSIVE') inconclusive :: $(echo "$out" | tail -1)"
 done
